@@ -30,7 +30,12 @@
 #ifndef FRAG
 #define FRAG 0			/* 1: write(2) may return short / EINTR (file-level C20) */
 #endif
+#ifndef GMAX
 #define GMAX 256
+#endif
+#ifndef WMAX
+#define WMAX 64		/* largest single write / block payload copied by the models */
+#endif
 #define MAXB 6
 #define MAXE 8
 
@@ -38,7 +43,7 @@
 static uint8_t G_data[GMAX];		/* everything before the trailer */
 static size_t G_n;
 static uint8_t G_trailer[512];
-static int G_trailer_writes, G_bad_fd, G_dups, G_closes, G_writes, G_after_trailer;
+static int G_trailer_writes, G_bad_fd, G_dups, G_closes, G_writes, G_after_trailer, G_overflow;
 static const int G_fd = 11;
 
 static ssize_t verif_write(int fd, const void *buf, size_t n)
@@ -66,9 +71,11 @@ static ssize_t verif_write(int fd, const void *buf, size_t n)
 		G_trailer_writes++;
 		return 512;
 	}
-	for (size_t i = 0; i < 64; i++)
+	for (size_t i = 0; i < WMAX; i++)
 		if (i < n && G_n + i < GMAX)
 			G_data[G_n + i] = ((const uint8_t *)buf)[i];
+	if (n > WMAX || G_n + n > GMAX)
+		G_overflow = 1;		/* shape too large for the ghost file: reported as a harness error */
 	G_n += n;
 	return (ssize_t)n;
 }
@@ -127,7 +134,7 @@ static int verif_stat(const char *p, struct stat *sb)
 
 /* ---------------- CRC: uninterpreted, logged ---------------- */
 #define CRC_LOG 8
-static struct { uint8_t bytes[64]; size_t len; uint32_t val; } crc_log[CRC_LOG];
+static struct { uint8_t bytes[WMAX]; size_t len; uint32_t val; } crc_log[CRC_LOG];
 static int crc_n;
 uint32_t mtbl_crc32c(const uint8_t *buf, size_t len)
 {
@@ -135,7 +142,7 @@ uint32_t mtbl_crc32c(const uint8_t *buf, size_t len)
 	if (crc_n < CRC_LOG) {
 		crc_log[crc_n].len = len;
 		crc_log[crc_n].val = v;
-		for (size_t i = 0; i < 64; i++)
+		for (size_t i = 0; i < WMAX; i++)
 			crc_log[crc_n].bytes[i] = (i < len) ? buf[i] : 0;
 	}
 	crc_n++;
@@ -160,7 +167,7 @@ static mtbl_res ghost_compress(mtbl_compression_type t, int level, int have_leve
 	(void)level;
 	*out = malloc(n ? n : 1);
 	V_ASSUME(*out != NULL);
-	for (size_t i = 0; i < 64; i++)
+	for (size_t i = 0; i < WMAX; i++)
 		if (i < n)
 			(*out)[i] = in[i];
 	*on = n;
@@ -355,6 +362,7 @@ static size_t A_idx[NADDS], A_n;
 
 static void decode_and_check(size_t ri, size_t block_size, int comp)
 {
+	V_ASSERT(!G_overflow, "harness: shape too large for the ghost file (GMAX/WMAX)");
 	/* ---- trailer ---- */
 	V_ASSERT(G_trailer_writes == 1 && !G_after_trailer, "C09: exactly one trailer, last in the file");
 	V_ASSERT(d_le32(G_trailer + 508) == 0x4D54424Cu, "C09: trailer ends with the v2 magic");
@@ -386,7 +394,7 @@ static void decode_and_check(size_t ri, size_t block_size, int comp)
 		V_ASSERT(D_blk[b].ne >= 1, "C09: empty data block");
 		/* checksum: the b-th CRC request covered exactly the stored bytes and its value is in the field */
 		V_ASSERT((size_t)crc_log[b].len == D_blk[b].payload_len && crc_log[b].val == D_blk[b].crc, "C09/C12: block carries the CRC32C of its stored bytes");
-		for (size_t i = 0; i < 64; i++)
+		for (size_t i = 0; i < WMAX; i++)
 			if (i < D_blk[b].payload_len)
 				V_ASSERT(crc_log[b].bytes[i] == G_data[D_blk[b].payload_off + i], "C09/C12: checksum computed over the bytes that were stored");
 		/* entries are the accepted ones, in order */
@@ -442,8 +450,8 @@ static struct block_builder *small_builder(size_t ri)
 {
 	struct block_builder *b = my_calloc(1, sizeof(*b));
 	b->block_restart_interval = ri;
-	b->buf = ubuf_init(96);
-	b->last_key = ubuf_init(8);
+	b->buf = ubuf_init(WMAX + 32);
+	b->last_key = ubuf_init(KLMAX + 4);
 	b->restarts = uint64_vec_init(8);
 	uint64_vec_add(b->restarts, 0);
 	return b;
